@@ -95,6 +95,21 @@ CLAIMS["C09"] = dict(
     technique="Kani/CBMC full-domain distinctness proof over the real Zobrist tables + single-component sensitivity contract on get_hash",
 )
 
+CLAIMS["C07"] = dict(
+    category="proof",
+    text="Builder half, complete: Board::try_from on a FULLY symbolic builder (13 contents on each of 64 squares, any side/rights/en-passant file, crowded boards included) never panics or reads out of bounds, succeeds exactly when the gatekeeper specification holds and then reproduces the builder's placement, side, rights, en-passant state, check/pin information and hash; is_sane is proved equal to that specification for every board the API can construct; every valid chess position satisfies it (code-independent lemma); every accepted board leaves room in the fixed-capacity move list (men + 2 <= real capacity) — the obligation that exposed the >16-men defect, repaired by a fix: commit. Text half, bounded: coordinate/square parsers total on short UTF-8 text (C13 obligations).",
+    design_ref="DESIGN.md §6 C07",
+    note=TRUST + "modular: update_pin_info / is_sane used through their contracts inside try_from (O3.1 per king square — subset in the quick tier — and O5.1); FEN text parsing (BoardBuilder::from_str: split, contains, String) is NOT under contract — std String/Vec machinery is out of reach of CBMC within the budget and str is out of reach of Verus; safety of move generation on accepted boards rests on the capacity obligation O7.4 plus the move-list slot bound argued in DESIGN.md (one slot per man + two en-passant slots), not yet mechanised.",
+    technique="Kani/CBMC contract on TryFrom<&BoardBuilder> over a fully symbolic builder with callees replaced by their proved contracts; exact functional contract on is_sane; capacity obligation against the real ArrayVec type",
+)
+CLAIMS["C05"] = dict(
+    category="proof",
+    text="Step obligations, all inputs: both move-application entry points produce the rule-prescribed successor (O2.1a/O2.2a) with structural monotonicity clauses (opponent's men and pawns only disappear, the mover's men are permuted, rights only shrink); code-independent lemma: the successor of a valid position under a legal move is valid again (kings, pawn ranks, rights backed, en-passant consistent, mover not in check); is_sane is proved equal to the gatekeeper specification, which every valid position satisfies. The lift to all histories is the induction over the move sequence on these step contracts.",
+    design_ref="DESIGN.md §6 C05",
+    note=TRUST + "the induction over histories and the arithmetic step |A - x + y| = |A| are stated, not mechanised; 'generated moves are legal' is C01; placement obligations use the frame assumption of O2.1a in the quick tier (discharged in thorough).",
+    technique="Kani/CBMC step contracts on make_move_new/make_move and is_sane + code-independent validity-preservation lemma over the chess specification",
+)
+
 NOT_YET = {}
 
 
